@@ -967,8 +967,11 @@ class C11(Spec):
                 fired["second_run"] = fired.get("second_run", 0) + 1
                 if len(sim.spy_log) != n1 or history_digest(bs[k].strategy) != dg:
                     viol.append({"check": "c11_rerun", "detail": "run() on a finished backtest ran the strategy again", "flags": {}})
-                if (bs[k].strategy.positions.to_numpy() != 0).any() if len(bs[k].strategy.positions.columns) else False:
-                    traded = True
+                try:
+                    if (bs[k].strategy.positions.to_numpy() != 0).any() if len(bs[k].strategy.positions.columns) else False:
+                        traded = True
+                except Exception:  # noqa  (a tree left half-reset by a broken second run() must not crash the harness)
+                    pass
         if _digest(deep_state(template)) != t0:
             viol.append({"check": "c11_template_mutated", "detail": "running backtests changed the strategy template they were built from", "flags": {"when": "run"}})
         if _digest(deep_state([data, add])) != d0:
